@@ -406,6 +406,7 @@ func discoverUser(
 		}
 
 		result := tryState(state, encryptedMetadata, source, mandatory)
+		verifAfterAttempt()
 		if afterAttempt != nil {
 			afterAttempt(state)
 		}
